@@ -68,6 +68,7 @@ class Event:
     result: object = None
     exc: BaseException | None = None
     pre: object = None  # whatever on_start returned
+    upre: object = None  # same, for the universal watcher
     seq: int = 0
     children: list = field(default_factory=list)
 
@@ -79,14 +80,22 @@ class Event:
 class Tracer:
     """Observe calls of selected code objects.
 
+    ``Tracer.universal`` (class attribute) may hold a list of
+    ``(func, name, on_start, on_return)`` that *every* tracer instance observes in
+    addition to its own watch list (used by the argument-mutation monitor of C09 to
+    ride along with the workloads of the other properties).
+
     ``watch(func, name, on_start=None, on_return=None)``; ``on_start(event)``
     may return a value kept in ``event.pre``; ``on_return(event)`` is called
     for normal returns and for unwinds (``event.exc`` set).
     Handlers run with observation suspended, so they may call anything.
     """
 
+    universal = None
+
     def __init__(self, keep_log: bool = False, keep_children: bool = False):
         self._watched: dict[types.CodeType, tuple] = {}
+        self._uni: dict[types.CodeType, tuple] = {}
         self._stack: list[Event] = []
         self._busy = False
         self._active = False
@@ -130,7 +139,12 @@ class Tracer:
         mon.register_callback(TOOL_ID, _E.PY_START, self._on_start)
         mon.register_callback(TOOL_ID, _E.PY_RETURN, self._on_return)
         mon.register_callback(TOOL_ID, _E.PY_UNWIND, self._on_unwind)
-        for code in self._watched:
+        if Tracer.universal:
+            for func, name, on_start, on_return in Tracer.universal:
+                code = code_of(func)
+                if code is not None and not code.co_flags & _CO_GENERATOR:
+                    self._uni[code] = (name, on_start, on_return)
+        for code in {**self._watched, **self._uni}:
             mon.set_local_events(TOOL_ID, code, _E.PY_START | _E.PY_RETURN)
         mon.set_events(TOOL_ID, _E.PY_UNWIND)
         self._active = True
@@ -140,7 +154,7 @@ class Tracer:
         mon = sys.monitoring
         if not self._active:
             return
-        for code in self._watched:
+        for code in {**self._watched, **self._uni}:
             mon.set_local_events(TOOL_ID, code, 0)
         mon.set_events(TOOL_ID, 0)
         for ev in (_E.PY_START, _E.PY_RETURN, _E.PY_UNWIND):
@@ -160,9 +174,10 @@ class Tracer:
         if self._busy:
             return
         w = self._watched.get(code)
-        if w is None:
+        u = self._uni.get(code)
+        if w is None and u is None:
             return
-        name, on_start, _ = w
+        name = w[0] if w is not None else u[0]
         frame = sys._getframe(1)
         loc = frame.f_locals
         args = {}
@@ -174,12 +189,14 @@ class Tracer:
         if self.keep_children and self._stack:
             self._stack[-1].children.append(ev)
         self._stack.append(ev)
-        if on_start is not None:
-            self._busy = True
-            try:
-                ev.pre = on_start(ev)
-            finally:
-                self._busy = False
+        self._busy = True
+        try:
+            if w is not None and w[1] is not None:
+                ev.pre = w[1](ev)
+            if u is not None and u[1] is not None:
+                ev.upre = u[1](ev)
+        finally:
+            self._busy = False
 
     def _finish(self, code, result, exc):
         st = self._stack
@@ -193,27 +210,30 @@ class Tracer:
         del st[i:]
         ev.result = result
         ev.exc = exc
-        self.counts[ev.name] = self.counts.get(ev.name, 0) + 1
+        w = self._watched.get(code)
+        u = self._uni.get(code)
+        if w is not None:
+            self.counts[ev.name] = self.counts.get(ev.name, 0) + 1
         if self.keep_log:
             self.log.append(ev)
-        on_return = self._watched[code][2]
-        if on_return is not None or self.any_return is not None:
-            self._busy = True
-            try:
-                if on_return is not None:
-                    on_return(ev)
-                if self.any_return is not None:
-                    self.any_return(ev)
-            finally:
-                self._busy = False
+        self._busy = True
+        try:
+            if w is not None and w[2] is not None:
+                w[2](ev)
+            if u is not None and u[2] is not None:
+                u[2](ev)
+            if self.any_return is not None:
+                self.any_return(ev)
+        finally:
+            self._busy = False
 
     def _on_return(self, code, offset, retval):
-        if self._busy or code not in self._watched:
+        if self._busy or (code not in self._watched and code not in self._uni):
             return
         self._finish(code, retval, None)
 
     def _on_unwind(self, code, offset, exc):
-        if self._busy or code not in self._watched:
+        if self._busy or (code not in self._watched and code not in self._uni):
             return
         self._finish(code, None, exc)
 
